@@ -202,8 +202,8 @@ def _shape_apply(state, op):
 
 
 _SEQ = '''
-@cond(timeout=1500, encodes=ENC,
-      bound="{family}: operation sequences of length {n} (2 quick / 3 thorough), first operation = '{first}' (fixed in this split), the "
+@cond(timeout=3000, encodes=ENC,
+      bound="{family}: operation sequences of length {n} (2 quick / 3 thorough, third operation every third one), first operation = '{first}' (fixed in this split), the "
             "others any of the {count} operations of the family (symbolic indices; arguments fixed per operation, including rejected "
             "out-of-domain values): after every step the element validates against {type_name} (content models of all descendants, "
             "attribute lexical spaces, required attributes)")
@@ -221,6 +221,8 @@ def _gen_family(fam, family, names, apply, root, type_name, ns="PML", skip=()):
     n_extra = NSEQ - 1
     params = ", ".join("o%d: int" % k for k in range(n_extra))
     pre = " and ".join("0 <= o%d < %d" % (k, len(names)) for k in range(n_extra))
+    if n_extra == 2:
+        pre += " and o1 % 3 == 0"  # thorough: the third operation ranges over every third one (keeps a condition under ~15 min)
     args = ", ".join("o%d" % k for k in range(n_extra))
     for i, first in enumerate(names):
         if i in skip:
